@@ -399,6 +399,8 @@ func runC20(cx *Ctx, r *Report) {
 	// (4) generated-code conformance
 	c20GoGoConformance(cx, r, gogo)
 	c20PulsarConformance(cx, r, api)
+	c20PresenceTests(cx, r, api, "presence-test")
+	c20PresenceTests(cx, r, gogo, "presence-test")
 	c20ApiGrpc(cx, r, api)
 	r.requireCount("desc-equal", 45)
 	r.requireCount("msg-registered", 60)
